@@ -322,7 +322,8 @@ class Gen(object):
             return ["lit", rng.choice(pools.STRINGS), None, rng.choice(pools.LANGS)]
         if k == "litf":
             u, l = rng.choice(pools.FOREIGN_DATATYPES)
-            return ["lit", rng.choice(["1", "abc", "2012", "", "0A", "x y"]), self.datatype_spec(ch, u, l), None]
+            return ["lit", rng.choice(["1", "abc", "2012", "", "0A", "x y", "007", "+5", " 3 "]),
+                    self.datatype_spec(ch, u, l), None]
         if k == "litn":
             t, lex, _ = rng.choice(pools.NATIVE_LITERALS)
             return ["lit", lex, ["qn", "xsd", pools.XSD_URI, t], None]
@@ -376,6 +377,11 @@ class Gen(object):
         k = wchoice(rng, self.p["formal_as"])
         if k == "rec":
             cands = [r for r in self.recs[ch] if r[2]]
+            if rng.random() < self.p.get("p_foreign_rec", 0.15):
+                # a record object that belongs to another container (other prefixes, other scope)
+                others = [r for c in self.containers() if c != ch for r in self.recs[c] if r[2]]
+                if others:
+                    return ["rec", ["h", rng.choice(others)[0]]]
             if cands:
                 return ["rec", ["h", rng.choice(cands)[0]]]
             k = "nsobj"
